@@ -309,4 +309,23 @@ PROPS["C15"] = {
     "level_note": "Graph maintenance loops and the DFS are outside the engine's reach; engine and z3 trusted.",
 }
 
+PROPS["C16"] = {
+    "contracts": ["contracts/C16_wiring.py"],
+    "level": "other",
+    "extra": [{"name": "C16/bounded[port pairs exhaustive; 300 random diagrams]", "kind": "bounded", "tiers": ("quick",), "cmd": ["/venv/bin/python", "native/c16_bounded.py"]},
+              {"name": "C16/bounded[5000 random diagrams]", "kind": "bounded", "tiers": ("thorough",), "timeout": 3000, "cmd": ["/venv/bin/python", "native/c16_bounded.py", "--thorough"]}],
+    "assumptions": ["DiagramExecutor.execute (a 100-line double loop over nested dicts with a ready-set scheduler) is NOT under proof: its clauses (label safety of every delivered value, "
+                    "run once and after all feeders, unschedulable diagrams raise) are checked by the bounded stand-in; the label-safety argument it relies on — "
+                    "_coerce_output labels values exactly as the source port, connect only accepts acceptable flows — IS proved",
+                    "required_capabilities: 'contains every module's capabilities' is proved (arbitrary module index and capability); 'contains nothing else' is bounded",
+                    "IntegrityLabel is an IntEnum compared by value"],
+    "trusted_base": ["frozen dataclasses", "dict.values() iteration order"],
+    "explanation": "Deductive part: the acceptance rule (can_flow_to / require_flow_to return normally exactly for equal types and source integrity >= destination), "
+                   "connect appends exactly one wire iff both ports exist and the flow is acceptable and leaves the wire list unchanged otherwise, add_module, "
+                   "required_capabilities (inclusion), _coerce_output (result labelled exactly as the port; rejected only when mislabelled), _coerce_input, register_module. "
+                   "Bounded part: exhaustive port pairs; seeded random diagrams with cycles/fan-in/missing sources/handlers and raw, labelled and mislabelled handler outputs.",
+    "level_text": "Leaf functions proved; the scheduler is a bounded stand-in.",
+    "level_note": "execute not under contract; engine and z3 trusted.",
+}
+
 NOT_APPLICABLE = {}
